@@ -29,7 +29,9 @@ CANCEL_EXE = {"slurm": "scancel", "sge": "qdel", "lsf": "bkill"}
 def selections(wf):
     names = wf.names()
     return [("all-f", ["-f"], None), ("all-y", [], "y\n"), ("all-n", [], "n\n"), ("all-eof", [], "")] + \
-           [(n, [n], None) for n in names] + [("pat", ["[BC]*"], None), ("pat-f", ["-f", "[AB]"], None), ("nomatch", ["Zz*"], None), ("two", [names[0], names[-1]], None)]
+           [(n, [n], None) for n in names] + [("pat", ["[BC]*"], None), ("pat-f", ["-f", "[AB]"], None), ("nomatch", ["Zz*"], None), ("two", [names[0], names[-1]], None),
+            # one target selected twice (a pattern and its own name, the same name twice): still one cancellation per job
+            ("overlap", ["[AB]*", names[1]], None), ("twice", [names[0], names[0]], None)]
 
 
 def selected_names(wf, label, args):
@@ -57,7 +59,7 @@ def probe(acc, world, trace, meta, with_faults=True):
         may = {latest[n]["id"] for n in sel if latest[n] is not None}
         ncmds = len(may)
         fault_plans = [None]
-        if with_faults and not declined and label in ("all-f", "two", "pat", "B"):
+        if with_faults and not declined and label in ("all-f", "two", "pat", "B", "overlap"):
             fault_plans += [(k, kind) for k in range(ncmds) for kind in ("rc1", "stderr_error", "rc1_silent")]
         for fp in fault_plans:
             w0 = world.copy()
